@@ -1564,6 +1564,21 @@ func (e *Engine) lenLowerBound(st *State, l, r ast.Expr) *int64 {
 		}
 		return &n
 	}
+	// make([]T, n): n elements
+	if call, ok := r.(*ast.CallExpr); ok && IsBuiltinCall(e.Info, call, "make") && len(call.Args) >= 2 {
+		if _, isSlice := e.Info.TypeOf(call).Underlying().(*types.Slice); isSlice {
+			if v, isConst := constInt(e.Info, call.Args[1]); isConst && v >= 0 {
+				return &v
+			}
+			if k := e.canon(st, call.Args[1]); k.OK {
+				if f := st.facts[k.Key]; f != nil && f.Lo != nil && *f.Lo >= 0 {
+					n := *f.Lo
+					return &n
+				}
+			}
+		}
+		return nil
+	}
 	// v := s[k:] has len(s) - k elements
 	if sl, ok := r.(*ast.SliceExpr); ok && sl.High == nil && sl.Max == nil {
 		k := int64(0)
